@@ -12,6 +12,9 @@ from .core import Abort, Hang, Precondition, Violation, World, call, exc_class
 # faults: enabled fault kinds; hist: history checks at the end of a run
 FOCUS = {
     'C01': dict(roots=[(0, 1), (1, 1)], armed=['c01'], faults=['F-ORD', 'F-NOT', 'F-BULK'], hist=['sched']),
+    'C02': dict(roots=[(0, 1), (1, 1), (0, 1), (1, 1), (0, 0), (1, 0)], armed=['c02'], faults=['F-ORD', 'F-BULK'],
+                hist=['c02-final'], derive=['slice', 'convert'], p_derive=[0.0, 0.1], p_node=[0.1, 0.2],
+                steps_cap=16),
     'C03': dict(roots=[(0, 1), (1, 1)], armed=['c03'], faults=['F-ORD'], hist=[]),
     'C04': dict(roots=[(0, 1), (1, 1)], armed=['c04'], faults=['F-ORD', 'F-BULK'], hist=['sched']),
     'C05': dict(roots=[(0, 1), (1, 1)], armed=['c05'], faults=['F-ORD'], hist=['sched']),
@@ -167,6 +170,11 @@ def step_checks(world, rep, op, out):
         if getattr(rep, 'guard_hit', None):
             world.guard_hits[rep.guard_hit] += 1
             rep.guard_hit = None
+    if 'c02' in armed:
+        from . import oracle_c02
+        ts = [None] + sorted({x + d for x in (op.get('t'), op.get('e'), op.get('t_from'), op.get('t_to'))
+                              if isinstance(x, int) for d in (-1, 0, 1)})[:7]
+        world.evals += oracle_c02.sweep(world, rep, ts)
     if 'c08' in armed and not m.removal and nonempty:
         world.evals += oracles.c08(rep, lo, hi)
 
@@ -317,6 +325,11 @@ def final_checks(world):
     spec = FOCUS[world.focus]
     if 'shadow' in spec['hist']:
         shadow_replay(world)
+    if 'c02-final' in spec['hist']:
+        from . import oracle_c02
+        for rep in world.reps:
+            lo, hi = oracles.window(rep.m)
+            world.evals += oracle_c02.sweep(world, rep, [None] + list(range(lo, hi + 1)))
 
 
 def snapshot_world(world):
@@ -359,6 +372,8 @@ def run(focus, seed=None, ops_list=None, profile=None, keep_log=False):
     try:
         if ops_list is None:
             cfg = gen.swarm(rng, focus)
+            if 'steps_cap' in FOCUS[focus]:
+                cfg['steps'] = min(cfg['steps'], FOCUS[focus]['steps_cap'])
             for knob in ('p_fault', 'p_derive', 'p_node'):
                 if knob in FOCUS[focus]:
                     cfg[knob] = rng.choice(FOCUS[focus][knob])
